@@ -71,6 +71,9 @@ func (c *c07Case) run(l *TLake) c07Outcome {
 			fmt.Fprintf(os.Stderr, "SLOW %v: %s (%d values, key %q)\n", d, c.Prog.Text(), len(c.Input), c.SortKey)
 		}
 	}()
+	if os.Getenv("C07_TRACE") != "" {
+		fmt.Fprintf(os.Stderr, "TRACE %s | %s | %d\n", c.Check, c.Prog.Text(), len(c.Input))
+	}
 	text := strings.Join(c.Input, "\n")
 	var un, op PlanResult
 	q := c.Prog.Text()
